@@ -357,7 +357,8 @@ func projS(t Type, v reflect.Value, _ bool) any {
 		b := v.Interface().(asn1.BitString)
 		return []any{ints(b.Bytes), float64(b.BitLength)}
 	case "time":
-		x := v.Interface().(time.Time)
+		// "times up to the second": the instant, expressed in UTC (expected and decoded alike)
+		x := v.Interface().(time.Time).UTC()
 		y, mo, d := x.Date()
 		h, mi, s := x.Clock()
 		_, off := x.Zone()
